@@ -4,7 +4,7 @@ package ed25519
 // the nonce commitment R of every signature).  For every 256-bit scalar k the digits recombine to
 // k (k odd) or k + L (k even), the first d digits are +-1 and the others lie in {-1,0,1}.
 //
-//zz: prop=C13 tier=thorough backend=lia timeout=3000 budget=7200
+//zz: prop=C13 tier=deep backend=lia timeout=3000 budget=7200
 func ZZ_C13_ed25519_mLSBRecoding() {
 	const ee = (fxT + fxW*fxV - 1) / (fxW * fxV)
 	const dd = ee * fxV
